@@ -104,7 +104,9 @@ class ValuesOfCorrectTypeChecker(ValidationVisitor):
         )
 
         if list_type is not None and not isinstance(list_type, ListType):
-            self._report_bad_value(input_type, node)
+            # Whether a custom scalar accepts a list literal is its own
+            # business, anything else cannot hold a list.
+            self._check_scalar(node)
 
     def enter_object_value(self, node):
         named_type = (
